@@ -83,11 +83,12 @@ NeedFrom(G, n, need) ==
            deps == {G[n].deps[k] : k \in 1..Len(G[n].deps)}
        IN NeedFrom(G, n - 1, need \cup {<<q, d>> : q \in locals, d \in deps})
 
-(* Tables derived from the programs.  They are computed once, when TLC evaluates the ASSUME     *)
-(* below, and kept in TLC register 1 (TLCSet in an ASSUME initialises the register of every     *)
-(* worker); TLCEval (= identity) forces TLC to evaluate the function constructors there and     *)
-(* then.  Semantically  NeedT = NeedTDef  etc.                                                  *)
-\* (the parameter only keeps TLC from evaluating these at start-up, before the ASSUME)
+(* Tables derived from the programs.  Every TLC worker computes them once, the first time it    *)
+(* takes a step (TablesReady is the first conjunct of Step and MacroStep), and keeps them in    *)
+(* its TLC register 1; TLCEval (= identity) forces TLC to evaluate the function constructors    *)
+(* there and then.  Semantically  NeedT = NeedTDef(0)  etc.                                     *)
+(* (They are deliberately NOT computed in an ASSUME: with several workers TLC 1.8 evaluates     *)
+(* TLCEval inside ASSUMEs concurrently for all workers and intermittently fails on big data.)   *)
 \* every message that is sent is part of its receiver's view, whether or not it is used afterwards
 SendNeeds(i) == LET G == M(i) IN
   UNION {{<<G[n].sends[k][2], n>> : k \in 1..Len(G[n].sends)} : n \in 1..Len(G)}
@@ -100,9 +101,13 @@ LocTDef(need) == TLCEval([i \in 1..NP |-> TLCEval([n \in 1..Len(M(i)) |->
 PlanTDef(u) == TLCEval([i \in 1..NP |-> Plans(M(i))])
 SrcPlanTDef(u) == TLCEval([i \in 1..NP |-> Plans(S(i))])
 
-ASSUME TablesComputed ==
-  LET need == NeedTDef(0)
-  IN TLCSet(1, [need |-> need, loc |-> LocTDef(need), plan |-> PlanTDef(0), splan |-> SrcPlanTDef(0)])
+ASSUME RegisterInitialised == TLCSet(1, [ready |-> FALSE])
+
+\* (IF, not a disjunction: in an action TLC explores every disjunct)
+TablesReady ==
+  IF TLCGet(1).ready THEN TRUE
+  ELSE LET need == NeedTDef(0)
+       IN TLCSet(1, [ready |-> TRUE, need |-> need, loc |-> LocTDef(need), plan |-> PlanTDef(0), splan |-> SrcPlanTDef(0)])
 
 NeedT == TLCGet(1).need
 LocT == TLCGet(1).loc
@@ -194,6 +199,7 @@ Succ(n, st, o) ==
 
 \* One node per step: the reference granularity of the runtime.
 Step ==
+  /\ TablesReady
   /\ pc <= Len(M(g))
   /\ \E r \in Succ(pc, store, orc) : store' = r[1] /\ orc' = r[2] /\ x' = r[3]
   /\ pc' = pc + 1
@@ -219,6 +225,7 @@ RunDet(n, st, o) ==
   ELSE RunDet(n + 1, (CHOOSE r \in Succ(n, st, o) : TRUE)[1], o)
 
 MacroStep ==
+  /\ TablesReady
   /\ pc <= Len(M(g))
   /\ \E r \in Succ(pc, store, orc) :
         LET d == RunDet(pc + 1, r[1], r[2])
